@@ -800,3 +800,55 @@ def end_to_end(case, ctx):
         import shutil
 
         shutil.rmtree(tmp, ignore_errors=True)
+
+
+# ----------------------------------------------------------------------------------------------
+# 8. fractional-Laplacian orbital kernels (frac_lapl.c): the contraction callbacks run inside the OpenMP region of
+#    PySCF's GTO driver (libcgto, PySCF's own OpenMP runtime: the team size is pyscf.lib.num_threads)
+
+@st.composite
+def st_flapl(draw):
+    return {"mol": draw(st.sampled_from(["H2", "HF", "H2O", "LiH"])), "basis": draw(st.sampled_from(["sto-3g", "6-31g", "def2-svp", "cc-pvdz"])),
+            "slist": draw(st.lists(st.sampled_from([-1.0, -0.5, 0.25, 0.5, 1.0]), min_size=1, max_size=3, unique=True)),
+            "n1": draw(st.integers(0, 3)), "ng": draw(st.sampled_from([1, 55, 56, 57, 113, 300, 1000])),
+            "T": draw(st.sampled_from([2, 2, 3, 4, 8, 16])), "reps": draw(st.sampled_from([3, 5, 8])), "seed": draw(SEED)}
+
+
+@subcheck("C10", "frac_lapl", st_flapl, quick=300, thorough=5000,
+          rule="eval_kao (GTOcontract_flapl0 / GTOcontract_flapl1 through PySCF's GTOeval_sph_drv) for 1-3 powers s, 0-3 of them "
+               "with gradient components, on 1-1000 points (around the 56-point block) of H2/HF/H2O/LiH in four bases: team of "
+               "1 (pyscf.lib.num_threads) vs 3-8 repetitions with a team of 2-16; every output element is computed by one "
+               "thread -> bit-identical; interleavings not controlled (a shared scratch shows up in some repetitions only)",
+          tolerances={"exact": 0.0})
+def frac_lapl(case, ctx):
+    from pyscf import lib
+
+    from ciderpress.pyscf import frac_lapl as fl
+
+    mol = G.real_mol({"mol": case["mol"], "basis": case["basis"]})
+    rng = rng_from(case["seed"])
+    ac = mol.atom_coords(unit="Bohr")
+    ng = case["ng"]
+    coords = np.ascontiguousarray(ac[rng.integers(0, mol.natm, ng)] + rng.normal(size=(ng, 3)) * 1.2)
+    slist = list(case["slist"])
+    n1 = min(case["n1"], len(slist))
+    T = case["T"]
+    ctx.event("n1=%s" % ("0" if n1 == 0 else ">0"))
+    ctx.event("T=%d" % T)
+    if ng > 56 and mol.nbas >= 2:
+        ctx.nontrivial([case["mol"], case["basis"], slist, n1, ng, T])
+
+    def call():
+        return np.array(fl.eval_kao(slist, mol, coords, n1=n1), copy=True)
+
+    old = lib.num_threads()
+    try:
+        lib.num_threads(1)
+        ref = call()
+        ctx.finite(ref, ("frac_lapl", "reference"))
+        for r in range(case["reps"]):
+            lib.num_threads(T)
+            got = call()
+            ctx.equal_bits(got, ref, ("frac_lapl", "kao", "deriv1" if n1 else "deriv0", "T_vs_1"), T=T, rep=r)
+    finally:
+        lib.num_threads(old)
